@@ -156,6 +156,8 @@ func (e EnumTable) Ordinal(typeName, sym string) int32 {
 type Builder struct {
 	C     *Conc
 	Enums EnumTable
+	// PresentOnly: Diff only demands what the AV lists; fields the AV does not mention may hold anything
+	PresentOnly bool
 }
 
 func lowerFirst(s string) string {
@@ -440,7 +442,7 @@ func safeLen(rv reflect.Value) int {
 
 // extraFields: every pointer / collection field of the struct not mentioned in the AV must be unset
 func (b *Builder) extraFields(rv reflect.Value, seen map[string]bool, path string) string {
-	if rv.Kind() != reflect.Struct {
+	if b.PresentOnly || rv.Kind() != reflect.Struct {
 		return ""
 	}
 	t := rv.Type()
